@@ -152,37 +152,136 @@ def build_obj(case, I, ctx):
             directlyProvides(Obj, I)
         return Obj
 
-    def __getattribute__(self, n):
-        if n in WATCH:
-            log.append(WATCH[n])
-        return object.__getattribute__(self, n)
+    # HOW __conform__ is attached (the property does not depend on it):
+    #   method       a normal method on the class (bound method: has __self__)
+    #   static       staticmethod on the class (plain function, no __self__)
+    #   classmethod  classmethod on the class (__self__ is the class)
+    #   inst_func / inst_lambda / inst_partial / inst_callable
+    #                a function / lambda / functools.partial / callable object stored in the
+    #                INSTANCE __dict__, nothing on the class
+    #   getattr      supplied by the class's __getattr__
+    #   slots        stored in a slot of a class with __slots__ (no instance __dict__)
+    # watch = False: the class keeps the generic attribute lookup (no __getattribute__ override),
+    # so the reads of __conform__ / __providedBy__ are not logged.
+    attach = case.get("attach", "method")
+    watch = case.get("watch", True)
+    arity = kind == "te0" and (attach != "method" or case.get("te0how") == "arity")
 
-    ns = {"__getattribute__": __getattribute__}
+    def behave(iface):
+        # body of a __conform__ that is really entered
+        log.append(["c"])
+        if iface is not ctx.I:
+            ctx.ok = False
+        if kind == "retnone":
+            return None
+        if kind == "retvalue":
+            return ctx.val(conform[1])
+        raise ctx.exc(conform[1], conform[2])
+
+    def never():
+        # body of a __conform__ whose call fails before it is entered (wrong arity)
+        log.append(["c"])
+        ctx.ok = False
+        return ctx.val(98)
+
+    ns = {}
+    if watch:
+        def __getattribute__(self, n):
+            if n in WATCH:
+                log.append(WATCH[n])
+            return object.__getattribute__(self, n)
+        ns["__getattribute__"] = __getattribute__
+    on_instance = None
+    if attach == "slots":
+        ns["__slots__"] = ("__conform__",)
     if kind == "getraise":
         e = ctx.exc(conform[1], conform[2])
 
         def getter(self):
             raise e
+        ns.pop("__slots__", None)
         ns["__conform__"] = property(getter)
     elif kind == "getnone":
-        ns["__conform__"] = None
-    elif kind in ("retnone", "retvalue", "raise"):
-        def __conform__(self, iface):
-            log.append(["c"])
-            if iface is not ctx.I or self is not ctx.obj:
-                ctx.ok = False
-            if kind == "retnone":
-                return None
-            if kind == "retvalue":
-                return ctx.val(conform[1])
-            raise ctx.exc(conform[1], conform[2])
-        ns["__conform__"] = __conform__
-    elif kind == "te0":
+        if attach == "slots":
+            on_instance = (None,)
+        elif attach.startswith("inst_"):
+            on_instance = (None,)
+        else:
+            ns["__conform__"] = None
+    elif kind == "te0" and not arity:
         ns["__conform__"] = functools.partial(operator.add, CallLogger(ctx))
+    elif kind in ("retnone", "retvalue", "raise", "te0"):
+        if attach == "method":
+            if arity:
+                def __conform__(self):
+                    return never()
+            else:
+                def __conform__(self, iface):
+                    if self is not ctx.obj:
+                        ctx.ok = False
+                    return behave(iface)
+            ns["__conform__"] = __conform__
+        elif attach == "static":
+            if arity:
+                def f():
+                    return never()
+            else:
+                def f(iface):
+                    return behave(iface)
+            ns["__conform__"] = staticmethod(f)
+        elif attach == "classmethod":
+            if arity:
+                def f(klass):
+                    return never()
+            else:
+                def f(klass, iface):
+                    return behave(iface)
+            ns["__conform__"] = classmethod(f)
+        elif attach == "getattr":
+            if arity:
+                def f():
+                    return never()
+            else:
+                def f(iface):
+                    return behave(iface)
+
+            def __getattr__(self, n):
+                if n == "__conform__":
+                    return f
+                raise AttributeError(n)
+            ns["__getattr__"] = __getattr__
+        elif attach in ("inst_func", "slots"):
+            if arity:
+                def f():
+                    return never()
+            else:
+                def f(iface):
+                    return behave(iface)
+            on_instance = (f,)
+        elif attach == "inst_lambda":
+            on_instance = ((lambda: never()) if arity else (lambda iface: behave(iface)),)
+        elif attach == "inst_partial":
+            if arity:
+                on_instance = (functools.partial(lambda tag: never(), "tag"),)
+            else:
+                on_instance = (functools.partial(lambda tag, iface: behave(iface), "tag"),)
+        else:
+            assert attach == "inst_callable", attach
+            if arity:
+                class Conf:
+                    def __call__(self):
+                        return never()
+            else:
+                class Conf:
+                    def __call__(self, iface):
+                        return behave(iface)
+            on_instance = (Conf(),)
     else:
         assert kind == "absent", kind
     cls = type("Obj", (object,), ns)
     how = case.get("how", "implementer")
+    if "__slots__" in ns and how in ("directly", "also"):
+        how = "implementer"      # no instance __dict__ to hold __provides__
     if case["provides"]:
         if how == "implementer":
             implementer(I)(cls)
@@ -191,6 +290,8 @@ def build_obj(case, I, ctx):
                 pass
             implementer(ISub)(cls)
     ob = cls()
+    if on_instance is not None:
+        object.__setattr__(ob, "__conform__", on_instance[0])
     if case["provides"]:
         if how == "directly":
             directlyProvides(ob, I)
